@@ -135,6 +135,13 @@ def Tx.topLevelBucket (tx : Tx) (name : Bytes) : Option Bucket :=
   let bucketPath := join [topDepth, name]
   if tx.bucketExists (indexKey bucketPath) then some { name := name, path := bucketPath, depth := 1 } else none
 
+/-- transaction.FetchBucket for a BucketMeta not yet in the transaction's cache (the cache is keyed
+    by the meta object; the harness passes a fresh one each time): only the index entry of the
+    meta's own path is looked up, `Paths()` are joined as they come -/
+def Tx.fetchBucket (tx : Tx) (paths : List Bytes) (name : Bytes) (depth : Nat) : Option Bucket :=
+  let path := join paths
+  if tx.bucketExists (indexKey path) then some { name := name, path := path, depth := depth } else none
+
 /-- transaction.CreateTopLevelBucket -/
 def Tx.createTopLevelBucket (tx : Tx) (name : Bytes) : Except Err (Tx × Bucket) :=
   if tx.readOnly then .error .writeNotAllowed
